@@ -312,6 +312,27 @@ def _discharge_clause(report, contract, case, path, P, pc, cl, props, oid, timeo
         ob["time_s"] = round(r["time_s"], 4)
         if r["answer"] == "unsat":
             ob["status"] = "discharged"
+        elif r["answer"] == "sat" and r["model"] is None:
+            # refuted by a command-line back end (z3's API said unknown): fetch the counterexample's values
+            others = {
+                c.decl().name(): c
+                for c in _consts_in_order(cl.hyps + [cl.goal])
+                if not c.decl().name().startswith("P_")
+            }
+            allc = {("P_" + n): t for n, t in P.terms.items()}
+            allc.update(others)
+            vals = discharge.cli_values(pc + cl.hyps + [z3.Not(cl.goal)], allc, timeout)
+            if vals is None:
+                ob["status"] = "unknown"
+                ob["detail"] = f"{r['backend']} answers sat but no model could be obtained"
+            else:
+                ob["status"] = "refuted"
+                ob["params"] = {n: vals["P_" + n] for n in P.terms}
+                ob["schedule"] = {n: vals[n] for n in others}
+                ob["note"] = cl.note
+                ob["trace"] = getattr(cl, "_trace", None)
+                ob["raised"] = raised
+                ob["regions"] = {}
         elif r["answer"] == "sat":
             ob["status"] = "refuted"
             m = r["model"]
